@@ -32,6 +32,8 @@ impl<'b, T: Write + 'b> Session<'b, T> {
         input: Input,
         is_macro_def: bool,
     ) -> Result<FormatReport, ErrorKind> {
+        #[cfg(rust_lang_rustfmt_verif)]
+        crate::verif_hooks::fault::at_snippet(&input);
         if !self.config.version_meets_requirement() {
             return Err(ErrorKind::VersionMismatch);
         }
